@@ -123,6 +123,10 @@ class Case:
         nm = self.nm
         if nm.get("map") is not None:
             kw["map"] = nm["map"]
+        if nm.get("map_func") is not None:
+            # a map given as (predicate, function): the function returns `...` (keep the generated key) for its fields
+            ret = nm["map_func"]
+            kw["map"] = [(fname, (lambda shape, fld, r=r: r)) for fname, r in ret.items()]
         if nm.get("as_list"):
             kw["as_list"] = True
         if "trim" in nm:
@@ -188,6 +192,8 @@ def name_mappings():
         "notrim": {"trim": False},
         "camel": {"style": "camelCase"},
         "skip-b": {"skip": ["b", "b_"]},
+        "func-ellipsis-camel": {"map_func": {"b_": ..., "b": ...}, "style": "UPPER_SNAKE"},
+        "func-ellipsis-path": {"map_func": {"a": ("n", ...)}, "style": "UPPER_SNAKE"},
     }
 
 
